@@ -31,6 +31,7 @@ type Scenario struct {
 	Paths       int       `json:"paths"`
 	MaxLeaves   int       `json:"maxLeaves"`
 	Tag         string    `json:"tag"`
+	Reps        int       `json:"reps"` // wl: construct the list this many times from permuted/duplicated input, report distinct outcomes
 }
 
 type LeafEv struct {
